@@ -1,15 +1,18 @@
 // C14 — traffic a flow or policy must see is always registered as managed.
 //
 // Two independent translations of the same configured URL are cross-validated:
-//   engine side  the real tries (streamfilter.FilterTree.GetFlow for flow filters,
-//                config.EndpointPolicyTree.Lookup + method map for policy endpoints);
-//   proxy side   what the engine registers (config.HaproxyEndpointFormat for each of
-//                Filter.GetSupportedMethods(), manage-all for IsAnyURLAccepted();
-//                config.BuildHAProxyEndpointsRequest for policies) evaluated the way
-//                haproxy.cfg does: map_reg = unanchored regex search over "METHOD:::URL".
+//
+//	engine side  the real tries (streamfilter.FilterTree.GetFlow for flow filters,
+//	             config.EndpointPolicyTree.Lookup + method map for policy endpoints);
+//	proxy side   what the engine registers (config.HaproxyEndpointFormat for each of
+//	             Filter.GetSupportedMethods(), manage-all for IsAnyURLAccepted();
+//	             config.BuildHAProxyEndpointsRequest for policies) evaluated the way
+//	             haproxy.cfg does: map_reg = unanchored regex search over "METHOD:::URL".
+//
 // Required (R): engine matches  =>  registered expression matches.
 // Required (L): literal characters are matched literally: a URL that differs from a
-//               matching URL in one literal character is not matched by the expression.
+//
+//	matching URL in one literal character is not matched by the expression.
 package c14
 
 import (
@@ -54,16 +57,16 @@ type stubFlow struct {
 	filter *streamconfig.Filter
 }
 
-func (f *stubFlow) GetFilter() publictypes.FilterI                                { return f.filter }
-func (f *stubFlow) GetName() string                                               { return f.name }
-func (f *stubFlow) GetType() internaltypes.FlowType                               { return internaltypes.UserFlow }
-func (f *stubFlow) GetExecutionContext() publictypes.LunarContextI                { return nil }
-func (f *stubFlow) GetResourceManagement() publictypes.ResourceManagementI        { return nil }
-func (f *stubFlow) CleanExecution()                                               {}
+func (f *stubFlow) GetFilter() publictypes.FilterI                                   { return f.filter }
+func (f *stubFlow) GetName() string                                                  { return f.name }
+func (f *stubFlow) GetType() internaltypes.FlowType                                  { return internaltypes.UserFlow }
+func (f *stubFlow) GetExecutionContext() publictypes.LunarContextI                   { return nil }
+func (f *stubFlow) GetResourceManagement() publictypes.ResourceManagementI           { return nil }
+func (f *stubFlow) CleanExecution()                                                  {}
 func (f *stubFlow) GetDirection(publictypes.StreamType) internaltypes.FlowDirectionI { return nil }
-func (f *stubFlow) GetRequestDirection() internaltypes.FlowDirectionI             { return nil }
-func (f *stubFlow) GetResponseDirection() internaltypes.FlowDirectionI            { return nil }
-func (f *stubFlow) IsUserFlow() bool                                              { return true }
+func (f *stubFlow) GetRequestDirection() internaltypes.FlowDirectionI                { return nil }
+func (f *stubFlow) GetResponseDirection() internaltypes.FlowDirectionI               { return nil }
+func (f *stubFlow) IsUserFlow() bool                                                 { return true }
 
 var sharedState = lunarContext.NewMemoryState[[]byte]()
 
@@ -315,7 +318,10 @@ func predicate(id string, s spec, q request) bool {
 // attribute finds the smallest set of repairs under which the expression behaves as
 // required (want) on q; every repair in it must be a listed finding whose structural
 // predicate holds for the case.
-func attribute(r *ev.Recorder, s spec, q request, want bool, c func() any) (ids []string, explained []string, ok bool) {
+func attribute(r *ev.Recorder, s spec, q request, want, modelled bool, c func() any) (ids []string, explained []string, ok bool) {
+	if !modelled {
+		return nil, nil, false // the implementation no longer behaves like the defect model
+	}
 	for _, fx := range fixSubsets[1:] {
 		if search(modelExprs(s, fx), q.Method, q.URL) != want {
 			continue
@@ -371,9 +377,10 @@ func hasSpecial(url string) string {
 }
 
 // judge decides one (subject, request) pair given the engine's verdict.
-//   own      expressions registered for the subject itself
-//   others   everything else registered in the same configuration (incl. manage-all)
-func judge(r *ev.Recorder, kind string, all []spec, s spec, q request, engine bool, own []string, othersMatch bool) *caseRepr {
+//
+//	own      expressions registered for the subject itself
+//	others   everything else registered in the same configuration (incl. manage-all)
+func judge(r *ev.Recorder, kind string, all []spec, s spec, q request, engine bool, own []string, othersMatch, modelled bool) *caseRepr {
 	mk := func(note string) *caseRepr {
 		return &caseRepr{Kind: kind, Configured: all, Subject: s, Request: q, Registered: own, Note: note}
 	}
@@ -401,7 +408,7 @@ func judge(r *ev.Recorder, kind string, all []spec, s spec, q request, engine bo
 		r.Class("registered: only by another entry of the configuration")
 		return nil
 	}
-	ids, explained, ok := attribute(r, s, q, true, func() any { return mk("engine matches, no registered expression does") })
+	ids, explained, ok := attribute(r, s, q, true, modelled, func() any { return mk("engine matches, no registered expression does") })
 	if ok {
 		for _, id := range ids {
 			r.Class("bypass attributed to " + id)
@@ -416,7 +423,7 @@ func judge(r *ev.Recorder, kind string, all []spec, s spec, q request, engine bo
 }
 
 // literally checks (L) for a URL u that matches s with the given mask of literal positions.
-func literally(r *ev.Recorder, kind string, all []spec, s spec, m, u string, mask []bool, at int, own []string) *caseRepr {
+func literally(r *ev.Recorder, kind string, all []spec, s spec, m, u string, mask []bool, at int, own []string, modelled bool) *caseRepr {
 	lit := []int{}
 	for i, b := range mask {
 		if b {
@@ -443,7 +450,7 @@ func literally(r *ev.Recorder, kind string, all []spec, s spec, m, u string, mas
 	mk := func(note string) *caseRepr {
 		return &caseRepr{Kind: kind, Configured: all, Subject: s, Request: q, Registered: own, Note: note}
 	}
-	ids, explained, ok := attribute(r, s, q, false, func() any {
+	ids, explained, ok := attribute(r, s, q, false, modelled, func() any {
 		return mk(fmt.Sprintf("differs from the matching URL %q in the literal character at offset %d and is still matched", u, i))
 	})
 	if ok {
@@ -457,14 +464,6 @@ func literally(r *ev.Recorder, kind string, all []spec, s spec, m, u string, mas
 		note += fmt.Sprintf(" [repairing %v stops it; not listed as known]", explained)
 	}
 	return mk(note)
-}
-
-func selfCheck(s spec, own []string) error {
-	want := modelExprs(s, fixes{})
-	if strings.Join(want, "\n") != strings.Join(own, "\n") {
-		return nil // the implementation no longer is the modelled one: nothing will be attributed
-	}
-	return nil
 }
 
 func implIsModelled(s spec, own []string) bool {
@@ -663,12 +662,13 @@ func TestFlowFilterRegistered(t *testing.T) {
 		}
 		r.Class(fmt.Sprintf("filters=%d", len(kept)))
 		own := make([][]string, len(kept))
+		modelled := make([]bool, len(kept))
 		manageAll := false
 		for i, f := range flows {
 			var all bool
 			own[i], all = registeredForFilter(f.filter)
 			manageAll = manageAll || all
-			if !implIsModelled(kept[i], own[i]) {
+			if modelled[i] = implIsModelled(kept[i], own[i]); !modelled[i] {
 				r.Class("translation differs from the modelled one")
 			}
 		}
@@ -689,16 +689,13 @@ func TestFlowFilterRegistered(t *testing.T) {
 						others = true
 					}
 				}
-				if fail := judge(r, "flow", kept, s, d.q, selected[s.Name], own[i], others); fail != nil {
+				if fail := judge(r, "flow", kept, s, d.q, selected[s.Name], own[i], others, modelled[i]); fail != nil {
 					t.Fatalf("%s", r.Fail(fail, "%s", fail.Note))
 				}
 			}
 			if d.mask != nil && selected[kept[d.from].Name] && !manageAll {
 				s := kept[d.from]
-				for _, m := range s.Methods {
-					_ = m
-				}
-				if fail := literally(r, "flow", kept, s, d.q.Method, d.q.URL, d.mask, d.at, own[d.from]); fail != nil {
+				if fail := literally(r, "flow", kept, s, d.q.Method, d.q.URL, d.mask, d.at, own[d.from], modelled[d.from]); fail != nil {
 					t.Fatalf("%s", r.Fail(fail, "%s", fail.Note))
 				}
 			}
@@ -822,14 +819,15 @@ func TestPolicyEndpointRegistered(t *testing.T) {
 					rest = append(rest, e)
 				}
 			}
-			if !implIsModelled(s, []string{ownExpr}) {
+			modelled := implIsModelled(s, []string{ownExpr})
+			if !modelled {
 				r.Class("translation differs from the modelled one")
 			}
-			if fail := judge(r, "policy", specs, s, d.q, true, own, reg.ManageAll || search(rest, d.q.Method, d.q.URL)); fail != nil {
+			if fail := judge(r, "policy", specs, s, d.q, true, own, reg.ManageAll || search(rest, d.q.Method, d.q.URL), modelled); fail != nil {
 				t.Fatalf("%s", r.Fail(fail, "%s", fail.Note))
 			}
 			if d.mask != nil && applied == d.from && !reg.ManageAll {
-				if fail := literally(r, "policy", specs, s, d.q.Method, d.q.URL, d.mask, d.at, own); fail != nil {
+				if fail := literally(r, "policy", specs, s, d.q.Method, d.q.URL, d.mask, d.at, own, modelled); fail != nil {
 					t.Fatalf("%s", r.Fail(fail, "%s", fail.Note))
 				}
 			}
@@ -873,7 +871,7 @@ func TestDocumentedShapes(t *testing.T) {
 					if !engine {
 						t.Fatalf("%s", r.Fail(caseRepr{Kind: "flow", Subject: s, Request: request{m, u}}, "the engine does not match %s %s to %q", m, u, s.URL))
 					}
-					if fail := judge(r, "flow", []spec{s}, s, request{m, u}, engine, own, false); fail != nil {
+					if fail := judge(r, "flow", []spec{s}, s, request{m, u}, engine, own, false, true); fail != nil {
 						t.Fatalf("%s", r.Fail(fail, "%s", fail.Note))
 					}
 				}
